@@ -29,7 +29,7 @@ ASSUMPTIONS = ["node ids in paths exist in the graph (unknown ids are outside th
 
 
 def plan(tier):
-    return {"cases": 1600 if tier == "quick" else 50000, "shards": 16,
+    return {"cases": 1600 if tier == "quick" else 200000, "shards": 16,
             "shard_budget_s": 300 if tier == "quick" else 3300}
 
 
